@@ -69,6 +69,18 @@ STMTS = [
     "select_like=1; while read -r ln; do echo \"@ln $ln\"; done <<< $'r1\\nr2'",
 ]
 
+# every duplicating / closing / file redirection operator with every explicit descriptor, including the ones that equal or contradict
+# the operator's default (`1<&3` is not `<&3`, `0>&3` is not `>&3`): the printed form must keep exactly the written descriptor
+for _fd in ["", "0", "1", "2", "4"]:
+    for _op in ["<&", ">&"]:
+        STMTS.append("exec 3> r3.f; e rd%s 0 %s%s3; exec 3>&-; cat r3.f" % (_fd, _fd, _op))
+        STMTS.append("e rc%s 0 %s%s- 2>/dev/null; echo \"@? $?\"" % (_fd, _fd, _op))
+for _fd in ["", "1", "2", "3"]:
+    for _op in [">", ">>", ">|"]:
+        STMTS.append("e rf%s 0 %s%s rf.f; cat rf.f" % (_fd, _fd, _op))
+STMTS += ["echo data > in.f; cat < in.f; cat 0< in.f; cat 4< in.f <&4", "echo rw > rw.f; cat <> rw.f; cat 0<> rw.f", "e ao 0 &> ao.f; e ap 0 &>> ao.f; cat ao.f",
+          "cat 0<<< \"y $x\"; read -r -u 4 l 4<<< \"z\"; echo \"@l $l\"", "e hs 0 3<<< x 2>&1 1>&2", "exec 6< /dev/null 7>&1; e x7 0 >&7 <&6; exec 6<&- 7>&-"]
+
 
 def gen_body(rng):
     n = rng.randint(1, 4)
